@@ -689,6 +689,127 @@ theorem svApply_spec (conj : α → α) {radixes : List Nat} {vec : T α} {u : U
     have hk' : k < prod t.shape := List.mem_range.1 hk
     rw [← data_getD_eq_get (t := t) hk']
 
+
+/-! ### `embed` is multiplicative and maps the identity to the identity -/
+
+theorem validIdx_pick_loc {rad loc : List Nat} (hlt : ∀ q ∈ loc, q < rad.length)
+    (hpos : ∀ s ∈ rad, 0 < s) (k : Nat) :
+    validIdx (loc.map (rad.getD · 0)) (pick (unravel rad k) loc) = true := by
+  have hv := validIdx_unravel hpos k
+  rw [validIdx_iff] at hv ⊢
+  refine ⟨by simp [length_pick], ?_⟩
+  intro a ha
+  simp only [List.length_map] at ha
+  have hq : loc.getD a 0 ∈ loc := by simp [List.getD_eq_getElem?_getD, ha]
+  rw [getD_pick ha, getD_map_nat ha]
+  exact hv.2 _ (hlt _ hq)
+
+theorem embedEntry_def (rad : List Nat) (m : T α) (loc : List Nat) (r c : Nat) :
+    embedEntry rad m loc r c
+      = if pick (unravel rad r) (rest rad.length loc) = pick (unravel rad c) (rest rad.length loc)
+        then m.get [ravel (loc.map (rad.getD · 0)) (pick (unravel rad r) loc),
+                    ravel (loc.map (rad.getD · 0)) (pick (unravel rad c) loc)]
+        else 0 := rfl
+
+theorem validIdx_pair {L L' a b : Nat} (ha : a < L) (hb : b < L') :
+    validIdx [L, L'] [a, b] = true := by
+  simp [validIdx, ha, hb]
+
+/-- `embed (m1 @ m2) = embed m1 · embed m2` (entry form). -/
+theorem embedEntry_mul {rad loc : List Nat} (hloc : isLocation loc rad.length = true)
+    (hpos : ∀ s ∈ rad, 0 < s) {m1 m2 m12 : T α}
+    (h1 : m1.shape = [prod (loc.map (rad.getD · 0)), prod (loc.map (rad.getD · 0))])
+    (h2 : m2.shape = [prod (loc.map (rad.getD · 0)), prod (loc.map (rad.getD · 0))])
+    (h12 : matmul m1 m2 = .ok m12) (r c : Nat) :
+    embedEntry rad m12 loc r c
+      = mulEntry (prod rad) (embedEntry rad m1 loc) (embedEntry rad m2 loc) r c := by
+  obtain ⟨hlt, hnd⟩ := isLocation_iff.1 hloc
+  have hlocpos := shape_entry_pos hpos hlt
+  have hvr := validIdx_unravel hpos r
+  have hrl : (unravel rad r).length = rad.length := length_unravel _ _
+  rw [matmul_eq_ok h1 h2] at h12
+  injection h12 with h12
+  subst h12
+  unfold mulEntry
+  rw [list_sum_range]
+  -- expand the left factor only
+  have hexp : ∀ k, embedEntry rad m1 loc r k * embedEntry rad m2 loc k c
+      = if pick (unravel rad r) (rest rad.length loc) = pick (unravel rad k) (rest rad.length loc)
+        then m1.get [ravel (loc.map (rad.getD · 0)) (pick (unravel rad r) loc),
+                     ravel (loc.map (rad.getD · 0)) (pick (unravel rad k) loc)]
+              * embedEntry rad m2 loc k c
+        else 0 := by
+    intro k
+    rw [embedEntry_def rad m1, ite_zero_mul]
+  simp only [hexp]
+  rw [sum_embed_reindex hloc hpos hvr
+    (fun x k => m1.get [ravel (loc.map (rad.getD · 0)) (pick (unravel rad r) loc), x]
+      * embedEntry rad m2 loc k c)]
+  -- the right factor at the reindexed column
+  have hright : ∀ x, x < prod (loc.map (rad.getD · 0)) →
+      embedEntry rad m2 loc
+        (ravel rad (put (unravel rad r) loc (unravel (loc.map (rad.getD · 0)) x))) c
+      = if pick (unravel rad r) (rest rad.length loc) = pick (unravel rad c) (rest rad.length loc)
+        then m2.get [x, ravel (loc.map (rad.getD · 0)) (pick (unravel rad c) loc)] else 0 := by
+    intro x hx
+    have hvp := validIdx_put hvr (validIdx_unravel hlocpos x)
+    unfold embedEntry
+    simp only
+    rw [unravel_ravel hvp, pick_put_other (by intro q hq; rw [hrl]; exact (mem_rest.1 hq).1)
+      (by intro q hq; exact (mem_rest.1 hq).2),
+      pick_put_self hnd (by intro q hq; rw [hrl]; exact hlt q hq) (by simp [length_unravel]),
+      ravel_unravel hx]
+  rw [Finset.sum_congr rfl (fun x hx => by rw [hright x (Finset.mem_range.1 hx)])]
+  unfold embedEntry
+  simp only
+  by_cases hP : pick (unravel rad r) (rest rad.length loc)
+      = pick (unravel rad c) (rest rad.length loc)
+  · simp only [hP, if_true]
+    rw [get_ofFn _ (validIdx_pair (ravel_lt (validIdx_pick_loc hlt hpos r))
+      (ravel_lt (validIdx_pick_loc hlt hpos c)))]
+    simp only [List.getD_cons_zero, List.getD_cons_succ]
+    rw [list_sum_range]
+  · simp [hP]
+
+/-- `embed identity = identity` (entry form). -/
+theorem embedEntry_identity {rad loc : List Nat} (hloc : isLocation loc rad.length = true)
+    (hpos : ∀ s ∈ rad, 0 < s) {r c : Nat} (hr : r < prod rad) (hc : c < prod rad) :
+    embedEntry rad (identity (prod (loc.map (rad.getD · 0))) : T α) loc r c
+      = if r = c then 1 else 0 := by
+  obtain ⟨hlt, hnd⟩ := isLocation_iff.1 hloc
+  have hrl : (unravel rad r).length = rad.length := length_unravel _ _
+  have hcl : (unravel rad c).length = rad.length := length_unravel _ _
+  unfold embedEntry identity
+  simp only
+  rw [get_ofFn _ (validIdx_pair (ravel_lt (validIdx_pick_loc hlt hpos r))
+    (ravel_lt (validIdx_pick_loc hlt hpos c)))]
+  simp only [List.getD_cons_zero, List.getD_cons_succ]
+  by_cases hrc : r = c
+  · subst hrc; simp
+  · rw [if_neg hrc]
+    by_cases hP : pick (unravel rad r) (rest rad.length loc)
+        = pick (unravel rad c) (rest rad.length loc)
+    · rw [if_pos hP]
+      have hne : ravel (loc.map (rad.getD · 0)) (pick (unravel rad r) loc)
+          ≠ ravel (loc.map (rad.getD · 0)) (pick (unravel rad c) loc) := by
+        intro he
+        apply hrc
+        have hpl : pick (unravel rad r) loc = pick (unravel rad c) loc := by
+          have := congrArg (unravel (loc.map (rad.getD · 0))) he
+          rwa [unravel_ravel (validIdx_pick_loc hlt hpos r),
+            unravel_ravel (validIdx_pick_loc hlt hpos c)] at this
+        have hd : unravel rad c = unravel rad r := by
+          have := put_pick_eq (idx := unravel rad r) (kd := unravel rad c) (loc := loc)
+            (by rw [hrl, hcl]) (by rw [hrl]; exact agree_of_pick_rest hP)
+          rw [← hpl] at this
+          rw [← this]
+          exact put_pick_eq rfl (fun _ _ _ => rfl)
+        have := congrArg (ravel rad) hd
+        rw [ravel_unravel hc, ravel_unravel hr] at this
+        exact this.symm
+      rw [if_neg hne]
+    · rw [if_neg hP]
+
 end
 end
 end BqVerif.Tensor
